@@ -234,6 +234,27 @@ func realVector() optModel {
 	return m
 }
 
+// hiddenVector renders the package-level variables of the tree under test that are NOT option state and are
+// not containers (a flag, a counter, a remembered value a setter keeps beside the option it documents).
+// They are never compared with anything - a correct implementation may keep such state - but they are part
+// of the identity of a state in the search: two histories that agree on the option vector and differ here
+// may have different futures, so they are not merged (a state merged away is a future never explored).
+func hiddenVector() string {
+	var sb strings.Builder
+	for _, e := range mxj.VerifState() {
+		i := strings.Index(e, "=")
+		if i <= 0 || optionVars[e[:i]] || strings.HasPrefix(e[i+1:], "aux:") {
+			continue
+		}
+		val := e[i+1:]
+		if strings.HasPrefix(val, "func:") && val != "func:nil" {
+			val = "func:set"
+		}
+		sb.WriteString(e[:i] + "=" + val + ";")
+	}
+	return sb.String()
+}
+
 func (m optModel) key() string {
 	ks := make([]string, 0, len(m))
 	for k := range m {
@@ -470,6 +491,7 @@ type c18Engine struct {
 	canon   map[string]string // family|projection -> result in the canonical state
 	broken  bool
 	samples int
+	hidden  string // hiddenVector() after the last step's transition
 }
 
 func (e *c18Engine) goTo(history []int) {
@@ -543,6 +565,7 @@ func (e *c18Engine) checkState(history []int, m optModel) {
 
 // step applies transition t in the state reached by history and checks (a) and (b).
 func (e *c18Engine) step(history []int, pm optModel, t int, report bool) optModel {
+	e.hidden = ""
 	c := e.c
 	e.goTo(history)
 	tr := e.trans[t]
@@ -551,6 +574,9 @@ func (e *c18Engine) step(history []int, pm optModel, t int, report bool) optMode
 	st, pan := protect(tr.real)
 	rt.LogGlobals = false
 	written := rt.WrittenGlobals()
+	if !pan {
+		e.hidden = hiddenVector()
+	}
 	nm := pm.clone()
 	tr.model(nm)
 	if !report {
@@ -602,7 +628,7 @@ func c18Run(c *Ctx) {
 			return
 		}
 	}
-	c.S.Rule = "explicit-state breadth-first search over the real package-option machine: state = dump (generated at build time) of the 38 package-level variables of mxj that are option state - what the setters write; other package-level variables a tree may have (tables, caches, pools, counters, lazily set flags) are not compared, their effect is judged by behaviour; transitions = every option setter in every argument form (explicit true/false, argument-less, attribute prefixes {-,\"\",@,_}, PrependAttrWithHyphen, key prefixes {#,_,$}, field separators, array sizes, skip function nil/f, empty-element syntax, JsonUseNumber) - 63 transitions; all histories of length <= D from the initial state with state de-duplication. On every transition: the reference option machine predicts the whole next state vector (documented semantics incl. toggles, 'disable' for white space, 'reset' for the field separator, the coupling of the two escaping switches), explicit forms are idempotent (the setter's global writes are logged against its documented write set, informational). On every state: 11 API families behave exactly as in the canonical state that agrees on the family's documented dependency set (non-interference), and after restoring defaults the state vector and the behaviour battery equal the fresh-process baseline. Documented behavioural effect of XmlGoEmptyElemSyntax ('<tag ...></tag> rather than <tag .../>'): for every value template with <= 4/5 nodes over {a,-x,#text} with empty containers, empty strings and nulls and 6 encoders, the output under the switch has the same token stream as the default output and contains no '/>'. Documented behavioural effect of the attribute prefix and the global key prefix (they only name keys inside the Map): for every document with <= 2 elements and <= 2 decorations (attributes whose own names begin with prefix characters: _id, __v, _; text, comment, PI), decode + encode under prefixes {@, _, __, attr_, -_, the two-byte character U+00A7, @ followed by U+00B5} / key prefixes {_, $, %} gives the same XML as under the defaults. Cold starts: every history of length 1 (thorough: <= 2) is also run as the first thing a fresh process does (a child process of the worker): it applies the history, uses all 11 families, restores the defaults and uses them again - behaviour after the restore must equal the fresh baseline and behaviour in the state must equal what the long-lived worker shows in that state (whatever is initialised lazily must not freeze the options in force at first use). non-trivial = distinct states."
+	c.S.Rule = "explicit-state breadth-first search over the real package-option machine: state = dump (generated at build time) of the 38 package-level variables of mxj that are option state - what the setters write; other package-level variables a tree may have (tables, caches, pools, counters, lazily set flags) are not compared, their effect is judged by behaviour; transitions = every option setter in every argument form (explicit true/false, argument-less, attribute prefixes {-,\"\",@,_}, PrependAttrWithHyphen, key prefixes {#,_,$}, field separators, array sizes, skip function nil/f, empty-element syntax, JsonUseNumber) - 63 transitions; all histories of length <= D from the initial state with state de-duplication (two histories are merged only if they agree on the option vector AND on every other non-container package-level variable the tree under test has - a flag or remembered value a setter keeps beside its option gives the state a different future, so such states are kept apart, up to 40000 of them). On every transition: the reference option machine predicts the whole next state vector (documented semantics incl. toggles, 'disable' for white space, 'reset' for the field separator, the coupling of the two escaping switches), explicit forms are idempotent (the setter's global writes are logged against its documented write set, informational). On every state: 11 API families behave exactly as in the canonical state that agrees on the family's documented dependency set (non-interference), and after restoring defaults the state vector and the behaviour battery equal the fresh-process baseline. Documented behavioural effect of XmlGoEmptyElemSyntax ('<tag ...></tag> rather than <tag .../>'): for every value template with <= 4/5 nodes over {a,-x,#text} with empty containers, empty strings and nulls and 6 encoders, the output under the switch has the same token stream as the default output and contains no '/>'. Documented behavioural effect of the attribute prefix and the global key prefix (they only name keys inside the Map): for every document with <= 2 elements and <= 2 decorations (attributes whose own names begin with prefix characters: _id, __v, _; text, comment, PI), decode + encode under prefixes {@, _, __, attr_, -_, the two-byte character U+00A7, @ followed by U+00B5} / key prefixes {_, $, %} gives the same XML as under the defaults. Cold starts: every history of length 1 (thorough: <= 2) is also run as the first thing a fresh process does (a child process of the worker): it applies the history, uses all 11 families, restores the defaults and uses them again - behaviour after the restore must equal the fresh baseline and behaviour in the state must equal what the long-lived worker shows in that state (whatever is initialised lazily must not freeze the options in force at first use). non-trivial = distinct states."
 	c.S.Assumptions = []string{"key prefixes are single punctuation characters (as the property states)", "the fresh-process baseline is recorded in the worker before any setter is called"}
 	depth := 4
 	if c.Thorough {
@@ -613,6 +639,9 @@ func c18Run(c *Ctx) {
 		model optModel
 	}
 	seen := map[string]bool{e.base.key(): true}
+	resetOptions()
+	baseHidden := hiddenVector()
+	hiddenStates := 0
 	frontier := []node{{nil, e.base.clone()}}
 	stateIdx := 0
 	own := func(i int) bool { return i%c.NShards == c.Shard }
@@ -632,6 +661,17 @@ func c18Run(c *Ctx) {
 					c.S.Schedules++
 				}
 				k := nm.key()
+				if e.hidden != baseHidden {
+					// the tree keeps state beside the option vector: histories that differ in it are distinct states
+					if hiddenStates < 40000 {
+						k += "|hidden:" + e.hidden
+						if !seen[k] {
+							hiddenStates++
+						}
+					} else {
+						c.Count("hidden_state_cap_reached_states_merged_on_option_vector_only", 1)
+					}
+				}
 				if !seen[k] {
 					seen[k] = true
 					stateIdx++
